@@ -31,6 +31,9 @@ type TB interface {
 }
 
 type Rec struct {
+	// FailSub, when set, is the sub-check recorded in failure records instead of Sub (a replayed case keeps
+	// the name of the sub-check that generated it, so that its own record can be replayed again)
+	FailSub    string
 	mu         sync.Mutex
 	Property   string
 	Sub        string
@@ -186,7 +189,11 @@ func (r *Rec) Fail(t TB, assertion, context string, c interface{}, format string
 		}
 		panic(knownAbort{})
 	}
-	f := &Failure{Property: r.Property, Sub: r.Sub, Assertion: assertion, Context: context, Message: fmt.Sprintf(format, args...), Case: c}
+	sub := r.Sub
+	if r.FailSub != "" {
+		sub = r.FailSub
+	}
+	f := &Failure{Property: r.Property, Sub: sub, Assertion: assertion, Context: context, Message: fmt.Sprintf(format, args...), Case: c}
 	r.mu.Lock()
 	r.last = f
 	r.mu.Unlock()
